@@ -425,13 +425,19 @@ WellFormedMesh(m) ==
   /\ \A i \in DOMAIN m.props : m.props[i].sz = KindCount(m, m.props[i].k)
                                /\ (m.props[i].t # "?" => Len(m.props[i].vals) = m.props[i].sz)
 
-(* topology type the header must carry for a mesh written from mesh type mt *)
+(* The topology type of a mesh (0 polyhedral, 1 tetrahedral, 2 hexahedral), as the automatic     *)
+(* type detection has to see it: tetrahedral iff there is at least one cell, EVERY face of the    *)
+(* mesh (also one that belongs to no cell) has valence 3 and every cell valence 4; hexahedral     *)
+(* iff at least one cell, every face valence 4, every cell valence 6; polyhedral otherwise (in    *)
+(* particular every mesh without cells).  Only such a mesh fits the specialised mesh types.       *)
 AllFaceVal(m, n) == \A i \in DOMAIN m.faces : Len(m.faces[i]) = n
 AllCellVal(m, n) == \A i \in DOMAIN m.cells : Len(m.cells[i]) = n
-DetectTopo(m, mt) ==
-  IF mt = "tet" THEN 1 ELSE IF mt = "hex" THEN 2
-  ELSE IF m.nc > 0 /\ AllFaceVal(m, 3) /\ AllCellVal(m, 4) THEN 1
+TopoTypeOf(m) ==
+  IF m.nc > 0 /\ AllFaceVal(m, 3) /\ AllCellVal(m, 4) THEN 1
   ELSE IF m.nc > 0 /\ AllFaceVal(m, 4) /\ AllCellVal(m, 6) THEN 2 ELSE 0
+(* topology type the header must carry for a mesh written from mesh type mt with AutoDetect: a    *)
+(* specialised mesh type fixes it, a polyhedral mesh is looked at                                  *)
+DetectTopo(m, mt) == IF mt = "tet" THEN 1 ELSE IF mt = "hex" THEN 2 ELSE TopoTypeOf(m)
 TopoOf(tt) == IF tt = "tet" THEN 1 ELSE IF tt = "hex" THEN 2 ELSE 0
 (* a file of topology type t can be read into a mesh of type mt *)
 Compatible(t, mt) == mt = "poly" \/ (mt = "tet" /\ t = 1) \/ (mt = "hex" /\ t = 2)
